@@ -224,3 +224,43 @@ def replay_case(case, monitors=(), verbose=True):
             sc.settle()
         show(a)
     return sc
+
+
+def hub_walk(sim, hub, peers, rng, steps, lossy=False, kinds=('acquire', 'acquire', 'rekey', 'expire_soft', 'expire_hard', 'delete')):
+    """Random history of a hub daemon with several peers: triggers on any endpoint, arbitrary delivery order (loss / duplication if lossy)."""
+    eps = [hub] + list(peers)
+    acts = sim.case.setdefault('actions', []) if isinstance(getattr(sim, 'case', None), dict) else []
+    for _ in range(steps):
+        r = rng.random()
+        if r < 0.4 or not sim.net:
+            ep = rng.choice(eps)
+            kind = rng.choice(kinds)
+            acts.append((ep.name, kind))
+            conns = list(ep.conf.ike_configurations.values())
+            if kind == 'acquire':
+                sim.acquire(ep, rng.choice(conns), dport=rng.randrange(1024, 60000) if ep is not hub else 0, sport=rng.randrange(1024, 60000) if ep is hub else 0)
+                continue
+            cands = [x for x in ep.ctl.ike_sas if x.state == State.ESTABLISHED]
+            if not cands:
+                continue
+            sa = rng.choice(cands)
+            if kind == 'rekey':
+                sa.rekey_ike_sa_at = sim.clock.t - 1
+                sa.delete_ike_sa_at = sim.clock.t + 29
+                ep.step('tick')
+            elif kind == 'delete':
+                sa.delete_ike_sa_at = sim.clock.t - 1
+                ep.step('tick')
+            elif sa.child_sas:
+                c = rng.choice(sa.child_sas)
+                sim.expire(ep, bytes(c.inbound_spi), kind == 'expire_hard', daddr=str(sa.my_addr))
+        elif lossy and r < 0.48:
+            sim.drop(rng.randrange(len(sim.net)))
+        elif lossy and r < 0.56 and len(sim.net) < 10:
+            sim.duplicate(rng.randrange(len(sim.net)))
+        elif r < 0.62:
+            sim.tick_all(rng.choice([0.5, 2.1, 4.1]))
+        else:
+            sim.deliver(rng.randrange(len(sim.net)))
+    sim.drain()
+    sim.settle()
